@@ -4,6 +4,7 @@ import (
 	"fmt"
 	"go/constant"
 	"go/token"
+	"go/types"
 	"strings"
 
 	"golang.org/x/tools/go/ssa"
@@ -364,7 +365,95 @@ func classifyLoop(p *Prog, fn *ssa.Function, li *loopInfo, pf map[*ssa.Function]
 			return "L6 consuming", fmt.Sprintf("the loop runs while %s is long enough and every trip continues with %s[n:], n ≥ 1: its length strictly decreases", phiName(ph), phiName(ph))
 		}
 	}
+	// L7: the loop runs until a flag is set, and every trip either sets the flag or continues with a strictly
+	// shorter rest of a slice/string (for rest, last := text, false; !last; { if i := Index(rest, sep); i >= 0
+	// { rest = rest[i+1:] } else { last = true } … })
+	if iff, ok := li.header.Instrs[len(li.header.Instrs)-1].(*ssa.If); ok && len(li.header.Succs) == 2 {
+		cond, contOnTrue := iff.Cond, li.blocks[li.header.Succs[0]] && !li.blocks[li.header.Succs[1]]
+		contOnFalse := li.blocks[li.header.Succs[1]] && !li.blocks[li.header.Succs[0]]
+		if u, ok := cond.(*ssa.UnOp); ok && u.Op == token.NOT {
+			cond, contOnTrue, contOnFalse = u.X, contOnFalse, contOnTrue
+		}
+		flag, isPhi := cond.(*ssa.Phi)
+		if isPhi && flag.Block() == li.header && contOnFalse && !contOnTrue {
+			if why, ok := flagOrShrink(flag, li); ok {
+				return "L7 flag or shrink", why
+			}
+		}
+	}
 	return "", "no monotone induction variable against an invariant bound, and no exit controlled by an input-consuming call executed on every trip"
+}
+
+// flagOrShrink: flag is a boolean header phi that ends the loop when true. On every way round the loop the
+// flag becomes the constant true, or stays as it is while a slice/string header phi continues with a strictly
+// shorter rest of itself. The two are merged in the same block, so the ways are matched predecessor by predecessor.
+func flagOrShrink(flag *ssa.Phi, li *loopInfo) (string, bool) {
+	for _, ins := range li.header.Instrs {
+		rest, ok := ins.(*ssa.Phi)
+		if !ok {
+			break
+		}
+		if rest == flag {
+			continue
+		}
+		switch rest.Type().Underlying().(type) {
+		case *types.Slice:
+		case *types.Basic:
+			if !isStringT(rest.Type()) {
+				continue
+			}
+		default:
+			continue
+		}
+		good, any := true, false
+		for i := range flag.Edges {
+			if !li.blocks[li.header.Preds[i]] {
+				continue
+			}
+			any = true
+			if !flagOrShrinkPair(flag.Edges[i], rest.Edges[i], flag, rest, li, 0) {
+				good = false
+			}
+		}
+		if good && any {
+			return fmt.Sprintf("the loop runs until %s is set, and every trip sets it or continues with a strictly shorter rest of %s", phiName(flag), phiName(rest)), true
+		}
+	}
+	return "", false
+}
+
+func flagOrShrinkPair(f, r ssa.Value, flag, rest *ssa.Phi, li *loopInfo, depth int) bool {
+	if depth > 4 {
+		return false
+	}
+	if c, ok := f.(*ssa.Const); ok && c.Value != nil && c.Value.Kind() == constant.Bool && constant.BoolVal(c.Value) {
+		return true // the flag is set: the next test leaves the loop, whatever the rest is
+	}
+	if f == ssa.Value(flag) {
+		d, ok := droppedPrefix(r, rest, 0, false)
+		return ok && d >= 1
+	}
+	// both merged in the same block: match the ways into it
+	fp, ok1 := f.(*ssa.Phi)
+	rp, ok2 := r.(*ssa.Phi)
+	if ok1 && ok2 && fp.Block() == rp.Block() && li.blocks[fp.Block()] && fp != flag && rp != rest {
+		for i := range fp.Edges {
+			if !flagOrShrinkPair(fp.Edges[i], rp.Edges[i], flag, rest, li, depth+1) {
+				return false
+			}
+		}
+		return true
+	}
+	if ok1 && !ok2 && li.blocks[fp.Block()] && fp != flag {
+		// the rest is the same on every way into the merge
+		for i := range fp.Edges {
+			if !flagOrShrinkPair(fp.Edges[i], r, flag, rest, li, depth+1) {
+				return false
+			}
+		}
+		return true
+	}
+	return false
 }
 
 // loopCallsWrite: some call of the loop may write the location addr designates (stores are judged by the caller).
